@@ -81,7 +81,7 @@ func c01(c *core.Check) {
 		r6.Skip(fmt.Sprintf("%s | %d explicit panic(s)", k, n), posOf[k], "internal invariant assertion(s); reachability not decided")
 	}
 
-	r5 := c.Rule("R5", "the re-pagination loop of layout.layoutDocument (the loop that calls makeAllPages) is a counted loop: its counter is incremented by a positive constant on every back edge and compared with a bound defined outside the loop", 1)
+	r5 := c.Rule("R5", "bounded loops: the re-pagination loop of layout.layoutDocument (the loop that calls makeAllPages) is a counted loop: its counter is incremented by a positive constant on every back edge and compared with a bound defined outside the loop; every loop whose only progress is an integer division (`for v != 0 { v /= d }`) has a divisor of at least 2 (at least 1 when the dividend is decremented first)", 3)
 	if ld := p.Fn("html/layout", "layoutDocument"); ld == nil {
 		r5.Anchor("html/layout.layoutDocument")
 	} else {
@@ -107,6 +107,9 @@ func c01(c *core.Check) {
 		if !found {
 			r5.Unknown("html/layout.layoutDocument | re-pagination loop", p.Pos(ld.Pos()), "no loop calling makeAllPages found")
 		}
+	}
+	if n := divLoopRule(c, r5, func(fn *ssa.Function) bool { return true }); n < 2 {
+		r5.Unknown("division-progress loops", "-", fmt.Sprintf("%d loops of the form `for v != 0 { v /= d }` found, 2 expected", n))
 	}
 }
 
@@ -149,6 +152,12 @@ func c01Recursion(c *core.Check) {
 	} else {
 		ok, why := core.SetGuardedResolver(p, rc)
 		r3.Cond(ok, "css/counters.CounterStyle.resolveCounter | previousTypes", p.Pos(rc.Pos()), why, why+": the fallback chain of renderValue is only finite because each resolved name is new")
+	}
+	for _, name := range []string{"css/counters.CounterStyle.resolveCounter", "css/counters.CounterStyle.renderValue"} {
+		if fn := p.Lookup(name); fn != nil {
+			ok, why := core.LoopVisitedGuard(p, fn, func(l *ssa.Lookup) bool { return l.X == ssa.Value(fn.Params[0]) })
+			r3.Cond(ok, name+" | extends loop", p.Pos(fn.Pos()), why, why+": counter styles extending each other in a cycle are followed forever")
+		}
 	}
 	// renderValue recurses on fallbacks only through resolveCounter with the same set
 	if rv := p.Lookup("css/counters.CounterStyle.renderValue"); rv == nil {
